@@ -95,6 +95,14 @@ pub proof fn lemma_all_sub(s: Seq<char>, a: int, b: int, p: spec_fn(char) -> boo
 {
 }
 
+pub proof fn lemma_ascii_seq_len(t: Seq<char>)
+    requires ascii_seq(t)
+    ensures encode_utf8(t).len() == t.len()
+{
+    assert forall|i: int| 0 <= i < t.len() implies (#[trigger] t[i] as u32) < 128 by { assert(is_ascii_c(t[i])); }
+    is_ascii_chars_encode_utf8(t);
+}
+
 // broadcast forms (proved from the lemmas above) so that extracted code needs no per-site hints
 pub broadcast proof fn b_slice_ok_ascii(s: &str, a: int, b: int)
     requires asc(s@), 0 <= a <= b <= s@.len()
